@@ -133,6 +133,13 @@ class Ctx:
 
     def finish(self, rule, explanation=None):
         pid = self.pid
+        # cases on which the library took the whole harness process down: no property holds on such an input
+        # (the terminal states of the specification are a result or a typed error)
+        for dd in vlib.DIED:
+            self.verdicts.append({"prop": pid, "case": dd["case"], "tag": "died", "clauses": ["library_takes_the_process_down:" + dd["how"]]})
+        if vlib.DIED:
+            self.extra["harness_process_deaths"] = len(vlib.DIED)
+            del vlib.DIED[:]
         findings = [f for f in vlib.load_findings() if f.get("property") == pid]
         known_hit = {}
         violations = []
@@ -562,6 +569,18 @@ def p_C09(ctx):
             yield c
     ctx.replay(lmon(add(file_cases(None))), "files-lm", "Trace_C09")
     ctx.replay(add(rnd(ctx, 120, 5000, None)), "random", "Trace_C09")
+    # long series (quick: four days of hours, 96 steps; thorough: an hourly month, 744 steps; sub-hourly when halved): two random buildings permuted and subdivided,
+    # one of them with load matching
+    def long_runs(cs):
+        for i, c in enumerate(cs):
+            c = dict(c)
+            n = steps_of(c)
+            p = list(range(1, n + 1))
+            r.shuffle(p)
+            c["lm"] = (i % 2 == 0)
+            c["runs"] = [{"tag": "base"}, {"tag": "perm0", "perm": p}, {"tag": "perm1", "perm": list(range(n, 0, -1))}, {"tag": "sub2", "sub": 2}]
+            yield c
+    ctx.replay(long_runs(rnd(ctx, 2, 12, None, aux=True, steps=96 if ctx.quick else 744)), "long", "Trace_C09")
     ctx.nontrivial = set(range(ctx.ncases))
     ctx.assumptions = [TOL_NOTE, TRUST, "model level: MC_C09!CheckLayout (all permutations, subdivision in integral form) exactly on the lattice"]
     return ctx.finish("histories Evaluate ; Permute(pi) / Subdivide(m) ; Evaluate: the logged transformed input is checked against the specification's transform, annual fields must be equal and per-step vectors permuted / subdivided; lattice (one sixth in quick tier), shipped files (k_exp 0 and 1, load matching off and on), random buildings")
@@ -586,6 +605,16 @@ def p_C11(ctx):
     ctx.samples += ctx.sample_from_trace(ctx.last_trace, 2, fields=("case", "tag", "run", "comps"))
     ctx.replay(add(file_cases(None)), "files", "Trace_C11")
     ctx.replay(add(rnd(ctx, 100, 5000, None)), "random", "Trace_C11")
+    # the MC_Comp family of partly covered ambient / solar uses (shortfalls of 1 - 3 kWh per step) a hundred times smaller
+    # and larger: the completion, like everything else, is linear (no absolute threshold anywhere on the way)
+    c05 = ctx.mc("MC_Comp", "MC_Comp_C05_quick.cfg" if ctx.quick else "MC_Comp_C05_thorough.cfg")
+    def tiny(cs):
+        for c in cs:
+            c = dict(c)
+            c.update({"fac": {"mode": "loc", "loc": "PENINSULA"}, "kexp": [0, 1], "area": [1, 1], "lm": False,
+                      "runs": [{"tag": "base"}, {"tag": "s1_100", "scale": [1, 100]}, {"tag": "s100_1", "scale": [100, 1]}]})
+            yield c
+    ctx.replay(tiny(stride(vlib.mc_cases(c05), 5 if ctx.quick else 1, ctx.seed % 5 if ctx.quick else 0)), "completion-family", "Trace_C11")
     # DHW supply mixes of MC_C15 (biomass, district heat, heat pumps, auxiliaries): the DHW renewable fraction
     # must not move with the scale or the area, also when both change together
     st15 = ctx.mc("MC_C15", "MC_C15_quick.cfg" if ctx.quick else "MC_C15_thorough.cfg", timeout=3000)
@@ -649,6 +678,17 @@ def p_C05(ctx):
     st = ctx.mc("MC_Comp", "MC_Comp_C05_quick.cfg" if ctx.quick else "MC_Comp_C05_thorough.cfg")
     ctx.replay(comp_cases(st, 6 if ctx.quick else 24, False), "lattice", "Trace_C05")
     ctx.extra["lattice_files"] = ctx.ncases
+    # the same family a hundred times smaller (values of 0.01 - 0.05 kWh, the resolution of the text format): the
+    # completion is max(0, use - declared) whatever the size of the shortfall
+    def small(cs):
+        for c in cs:
+            c = json.loads(json.dumps(c))
+            for x in c["src"]["comps"]:
+                x["v"] = [y / 100.0 for y in x["v"]]
+            c["parse_q"] = 2
+            c["reps"] = 2
+            yield c
+    ctx.replay(small(stride(comp_cases(st, 2, False), 3 if ctx.quick else 1, ctx.seed % 3 if ctx.quick else 0)), "lattice-small", "Trace_C05")
     def more(cs):
         for c in cs:
             c["parse_log"] = True
@@ -909,8 +949,8 @@ def p_C16(ctx):
     ctx.extra["fault_files"] = len(faults)
     sample_lib = [json.loads(l) for l in open(tpath).readlines()[200:202]]
     # --- out of process: the real program (debug profile) on the same bytes, on valid texts and on option atoms
-    metaf = [c for c in faults if c.get("base") == -1]       # interpreted metadata with atoms as values: always all of them
-    other = [c for c in faults if c.get("base") != -1]
+    metaf = [c for c in faults if c.get("base", 0) < 0]      # interpreted metadata with atoms as values, long refused lines: always all of them
+    other = [c for c in faults if c.get("base", 0) >= 0]
     recs = [dict(c) for c in metaf + (other if not ctx.quick else other[::2] + other[1::6])]
     texts = [{"kind": "text", "text": t, "loc": loc} for t in C08_SHAPES for loc in ("PENINSULA", "CANARIAS")]
     texts += [{"kind": "text", "text": t, "extra": ["-F"]} for t in C08_SHAPES]
